@@ -320,6 +320,55 @@ class CFG:
             self._scc = res
         return self._scc
 
+    @property
+    def loops(self):
+        """natural loops: {header: set(body blocks)} from back edges t->h with h dominating t"""
+        if getattr(self, "_loops", None) is None:
+            loops = {}
+            for t in sorted(self.reach):
+                for h in self.succ[t]:
+                    if h in self.idom and self.dominates(h, t):
+                        body = loops.setdefault(h, {h})
+                        st = [t]
+                        while st:
+                            x = st.pop()
+                            if x in body:
+                                continue
+                            body.add(x)
+                            for p in self.pred[x]:
+                                if p in self.reach:
+                                    st.append(p)
+            self._loops = loops
+        return self._loops
+
+    def loop_assigned(self, header):
+        """(locals assigned, has projected store) inside the natural loop of `header`"""
+        cache = getattr(self, "_la", None)
+        if cache is None:
+            cache = self._la = {}
+        if header in cache:
+            return cache[header]
+        loc = set()
+        store = False
+        for b in self.loops.get(header, ()):
+            bb = self.blocks[b]
+            for s in bb["s"]:
+                if s["k"] == "assign":
+                    if s["pl"]["p"]:
+                        store = True
+                        if "*" in s["pl"]["p"]:
+                            continue  # store through a pointer: the pointer local itself is unchanged
+                    loc.add(s["pl"]["l"])
+            t = bb["t"]
+            if t["k"] == "call":
+                if t["dest"]["p"]:
+                    store = True
+                loc.add(t["dest"]["l"])
+            if t["k"] == "yield":
+                loc.add(t["resume_arg"]["l"])
+        cache[header] = (loc, store)
+        return cache[header]
+
     def in_cycle(self, bb):
         return any(bb in c for c in self.sccs)
 
